@@ -320,6 +320,49 @@ pub fn logic_oracle(url: &str, text: &str, report: &mut Report, replay: &serde_j
   }
 }
 
+/// the public member signatures of an emitted class keep their name, staticness and accessibility
+pub fn member_signature_oracle(report: &mut Report, url: &str, d: &Decl, tok: &str, replay: &serde_json::Value) {
+  if let DeclKind::Class { members, .. } = &d.kind {
+    let segs: Vec<&str> = tok.split(" | ").collect();
+    for m in members {
+      let (name, access, is_static) = match m {
+        Member::Prop { name, access, is_static, .. } => (name, *access, *is_static),
+        Member::Method { name, access, is_static, .. } => (name, *access, *is_static),
+        Member::Accessor { name, access, is_static, .. } => (name, *access, *is_static),
+        _ => continue,
+      };
+      let mine: Vec<&&str> = segs
+        .iter()
+        .filter(|s| (s.starts_with("prop ") || s.starts_with("method ")) && s.split(|c: char| !(c.is_alphanumeric() || c == '_')).any(|w| w == name))
+        .filter(|s| {
+          // the member's own segment: the name is followed by `:`, `(`, `?` or `=`
+          s.find(&format!("{}:", name)).or(s.find(&format!("{}(", name))).or(s.find(&format!("{}?", name))).or(s.find(&format!("{}=", name))).is_some()
+        })
+        .collect();
+      if access == Access::Priv {
+        // private members are reduced to `any` properties, one per name
+        continue;
+      }
+      if mine.is_empty() {
+        if access != Access::Priv {
+          report.fail("oracle", "public-member-dropped", format!("{}: member {} of class {} is not in the emitted class: {}", url, name, d.name, tok), replay.clone());
+        }
+        continue;
+      }
+      for seg in mine {
+        let words: Vec<&str> = seg.split(' ').collect();
+        if words.contains(&"static") != is_static {
+          report.fail("oracle", "member-staticness-changed", format!("{}: member {} (static: {}) is emitted as `{}`", url, name, is_static, seg), replay.clone());
+        }
+        let acc = if words.contains(&"priv") { Access::Priv } else if words.contains(&"prot") { Access::Prot } else { Access::Pub };
+        if acc != access {
+          report.fail("oracle", "member-accessibility-changed", format!("{}: member {} ({:?}) is emitted as `{}`", url, name, access, seg), replay.clone());
+        }
+      }
+    }
+  }
+}
+
 pub fn run(tier: &str, seed: u64) -> Report {
   let mut report = Report::new("C10");
   report.rule = "generated declarations (functions with required / optional / defaulted / rest parameters, typed or not, return type explicit, \
@@ -365,6 +408,7 @@ pub fn run(tier: &str, seed: u64) -> Report {
             let toks = x.decl_tokens();
             let tok = toks.iter().find(|(n, _)| *n == d.name).map(|(_, t)| t.clone()).unwrap_or("ABSENT".into());
             batch.push(req, tok.clone(), false);
+            member_signature_oracle(&mut report, &url, &d, &tok, &replay);
             report.count(&format!("{}:emitted", kind));
             report.nontrivial.insert(format!("{}/ok/{}", kind, feature_class(&tok)));
           }
